@@ -47,7 +47,19 @@ TransferClauses(c) ==
     \cup (IF ~c.nllok THEN {"nll_of_unique_or_reevaluated"} ELSE {})
     \cup (IF ~c.indexOK THEN {"row_refers_to_its_unique"} ELSE {})
 
+(* "concat": the per-round logs of one function (sequences of templates, in round order) and its row of the
+   final map file.  Law (duplicate_checker.py:221-262 = Dedup's ConcatRounds ; CancelPairs): the final row is
+   Subs!Cancel of the concatenation of the round rows, unless check_results un-merged the function (then the
+   row is empty and the function is its own unique). *)
+RECURSIVE Flatten(_)
+Flatten(ss) == IF ss = <<>> THEN <<>> ELSE Head(ss) \o Flatten(Tail(ss))
+ConcatClauses(c) ==
+  LET all == Flatten(c.rounds) IN
+  IF c.unmerged THEN (IF c.final # <<>> THEN {"unmerged_row_is_empty"} ELSE {})
+  ELSE IF c.final # Sb!Cancel(all) THEN {"final_row_is_cancel_of_concatenated_rounds"} ELSE {}
+
 Clauses(c) == CASE c.kind = "cancel"   -> CancelClauses(c)
+                [] c.kind = "concat"   -> ConcatClauses(c)
                 [] c.kind = "dup"      -> DupClauses(c)
                 [] c.kind = "row"      -> RowClauses(c)
                 [] c.kind = "file"     -> FileClauses(c)
